@@ -21,6 +21,9 @@ impl Value { #[verifier::external_body] pub fn get_query_weight_estimate(&self) 
 #[verifier::external_body] pub fn min_bin(bins: &[f64]) -> (r: Result<usize, PluginError>)
     ensures r matches Ok(i) ==> i < bins@.len(), bins@.len() > 0 ==> r is Ok, bins@.len() == 0 ==> r is Err
 { unimplemented!() }
+// std function vstd does not specify (assumed): Result::unwrap_or
+pub assume_specification<T, E> [ Result::<T, E>::unwrap_or ](r: Result<T, E>, default: T) -> (o: T)
+    ensures r matches Ok(v) ==> o == v, r is Err ==> o == default;
 #[verifier::external_body] pub fn verif_vec_f64(x: f64, n: usize) -> (r: Vec<f64>) ensures r@.len() == n { vec![x; n] }
 #[verifier::external_body] pub fn verif_vec_bins<'a>(n: usize) -> (r: Vec<Vec<&'a Value>>) ensures r@.len() == n, forall|b: int| 0 <= b < n ==> (#[trigger] r@[b])@.len() == 0 { unimplemented!() }
 
@@ -67,7 +70,9 @@ def build(x):
         (r is Ok && queries@.len() > 0) ==> balanced(queries@, parallelism as int, r->Ok_0@),
         (r is Ok && queries@.len() == 0) ==> r->Ok_0@.len() == 0,
         // parallelism 0 with a non-empty batch is an error, not a panic
-        (queries@.len() > 0 && parallelism == 0) ==> r is Err,""")
+        (queries@.len() > 0 && parallelism == 0) ==> r is Err,
+        // C06: with at least one executor the assignment never fails, whatever the queries hold (an unreadable weight estimate is a missing one)
+        parallelism > 0 ==> r is Ok,""")
     f.rewrite(r"\A", "#[verifier::exec_allows_no_decreases_clause]\n", 1, 1, rule="note")
     f.body_start("    broadcast use areal; proof { areal_obeys(); }")
     f.add_loop_spec(1, """        invariant
